@@ -249,6 +249,50 @@ def clientOutcome (outs : List Outcome) : ClientOutcome :=
   | none => .eos
   | some o => .err o
 
+
+/-! ### several streams of one client under the scripted test origin
+
+The T2 origin (go/cmd/corr/select_server.go) serves every stream freely up to its second playlist
+request, holds that request at a gate, and then lets the streams run to completion one at a time,
+highest index first. `held = true` marks a stream whose exhausted history makes the origin never
+answer (instead of answering 404): its last playlist request stays pending. -/
+
+/-- prefix of a log up to and including the `n`-th playlist request -/
+def uptoPlaylist : Nat → List Req → List Req
+  | _, [] => []
+  | n, r :: rs =>
+    if r.kind = .playlist then
+      match n with
+      | 0 => [r]
+      | n + 1 => r :: uptoPlaylist n rs
+    else r :: uptoPlaylist n rs
+
+/-- does this stream end the client with an error? (`playlistFetch` on a held stream = pending) -/
+def endsClient (held : Bool) (o : Outcome) : Bool :=
+  match o with
+  | .eos => false
+  | .playlistFetch => !held
+  | _ => true
+
+/-- logs and final outcome of a multi-stream client under the origin's schedule.
+    Input: per stream (held, full log, outcome), in stream order. `none` = no result (pending). -/
+def schedule (streams : List (Bool × List Req × Outcome)) : List (List Req) × Option ClientOutcome :=
+  -- streams complete in the order last … first; the first one (in that order) that errs ends the client
+  let rec go : List (Bool × List Req × Outcome) → List (List Req) × Option Outcome × Bool
+    -- returns logs (stream order), the ending error if any, and whether all streams ended with eos
+    | [] => ([], none, true)
+    | (held, log, out) :: rest =>
+      let (logs, err, allEos) := go rest
+      match err with
+      | some e => (uptoPlaylist 1 log :: logs, some e, false)
+      | none =>
+        if endsClient held out then (log :: logs, some out, false)
+        else (log :: logs, none, allEos && decide (out = .eos))
+  let (logs, err, allEos) := go streams
+  match err with
+  | some e => (logs, some (.err e))
+  | none => (logs, if allEos then some .eos else none)
+
 /-- ids of the segment fetches of a log, in order -/
 def segIds (log : List Req) : List Int := log.filterMap fun r => if r.kind = .segment then r.id else none
 
